@@ -2,9 +2,11 @@
 package c01
 
 import (
+	"bytes"
 	"fmt"
 	"sort"
 	"strings"
+	"sync"
 	"testing"
 
 	"pgregory.net/rapid"
@@ -47,11 +49,29 @@ func nameForModel(t *rapid.T, m *ref.Model) string {
 
 func TestPropDispatch(t *testing.T) {
 	rec := ev.Get("dispatch")
-	rapid.Check(t, func(t *rapid.T) {
+	rapid.Check(t, func(t *rapid.T) { dispatchCase(t, rec, false) })
+}
+
+// TestPropConcurrentSenders: the same tables and the same oracle, with the lines of a case handed in by 2-8 goroutines
+// at once (several input connections): every line must still reach exactly the routes and destinations the reference
+// names, whatever the relay shares between dispatches (buffers, caches, hash state).
+func TestPropConcurrentSenders(t *testing.T) {
+	rec := ev.Get("concurrent_senders")
+	rapid.Check(t, func(t *rapid.T) { dispatchCase(t, rec, true) })
+}
+
+func dispatchCase(t *rapid.T, rec *ev.Recorder, concurrent bool) {
+	{
 		m := ref.GenModel(t, 6, true)
 		b := ref.Build(m, ref.BuildOpts{})
 		defer b.Close()
 		nl := rapid.IntRange(1, 12).Draw(t, "nlines")
+		senders := 1
+		if concurrent {
+			nl = rapid.IntRange(8, 80).Draw(t, "nlines-concurrent")
+			senders = rapid.IntRange(2, 8).Draw(t, "senders")
+		}
+		var toSend []string
 		type sent struct {
 			line string
 			out  ref.Outcome
@@ -139,7 +159,29 @@ func TestPropDispatch(t *testing.T) {
 					ntCase = true
 				}
 			}
-			b.Tab.Dispatch([]byte(line))
+			toSend = append(toSend, line)
+		}
+		if senders == 1 {
+			for _, line := range toSend {
+				b.Tab.Dispatch([]byte(line))
+			}
+		} else {
+			var wg sync.WaitGroup
+			for g := 0; g < senders; g++ {
+				wg.Add(1)
+				go func(g int) {
+					defer wg.Done()
+					buf := make([]byte, 0, 256)
+					for i := g; i < len(toSend); i += senders {
+						buf = append(buf[:0], toSend[i]...)
+						b.Tab.Dispatch(buf)
+						for k := range buf { // (an input handler reuses its read buffer)
+							buf[k] = '#'
+						}
+					}
+				}(g)
+			}
+			wg.Wait()
 		}
 		d1 := b.DestCounts()
 		c1 := h.ReadTableCounters().Sub(c0)
@@ -164,8 +206,20 @@ func TestPropDispatch(t *testing.T) {
 			switch r.Type {
 			case "capture":
 				got := b.Caps[ri].Lines()
-				if fmt.Sprint(got) != fmt.Sprint(wantCap[ri]) {
-					t.Fatalf("route %s received %q, reference says %q\n%s", r.Key, got, wantCap[ri], ctx())
+				want := wantCap[ri]
+				if senders > 1 { // no order between senders: compare as multisets
+					got, want = append([]string(nil), got...), append([]string(nil), want...)
+					sort.Strings(got)
+					sort.Strings(want)
+				}
+				if fmt.Sprint(got) != fmt.Sprint(want) {
+					t.Fatalf("route %s received %q, reference says %q (senders: %d)\n%s", r.Key, got, want, senders, ctx())
+				}
+				// what a route was handed is that line for good: still the same bytes at the end of the case
+				for _, r2 := range b.Caps[ri].Got {
+					if !bytes.Equal(r2.Copy, r2.Orig) {
+						t.Fatalf("route %s was handed %q; at the end of the case the same slice reads %q (the relay reused it)\n%s", r.Key, r2.Copy, r2.Orig, ctx())
+					}
 				}
 			case "consistentHashing":
 				var sum int64
@@ -202,6 +256,6 @@ func TestPropDispatch(t *testing.T) {
 			ls = append(ls, l.line)
 		}
 		rec.Case(m.String()+" | "+strings.Join(ls, ","), ntCase, fmt.Sprintf("routes=%d", len(m.Routes)), "types="+strings.Join(tl, "+"), fmt.Sprintf("non-canonical-whitespace>0=%v", oddLayout > 0),
-			fmt.Sprintf("blacklisted>0=%v", wantBlack > 0), fmt.Sprintf("unroutable>0=%v", wantUnroutable > 0))
-	})
+			fmt.Sprintf("blacklisted>0=%v", wantBlack > 0), fmt.Sprintf("unroutable>0=%v", wantUnroutable > 0), fmt.Sprintf("senders=%d", senders))
+	}
 }
